@@ -159,6 +159,7 @@ structure GFns (α : Type) where
   big : α     -- 1e15
   c1 : α      -- 1.4826
   c2 : α      -- 4.685
+  madtol : α  -- 1e-9
 
 def deigs (G : GFns α) (m : Nat) : List α :=
   (List.range m).map fun i => if i = 0 then G.eig0 else G.eig i m
@@ -205,21 +206,34 @@ def median (xs : List α) : α :=
   if n % 2 = 1 then s.getD (n / 2) (nat 0)
   else (s.getD (n / 2 - 1) (nat 0) + s.getD (n / 2) (nat 0)) / nat 2
 
-/-- one robust re-weighting step.  `r = y - y_temp`; returns the new `r_weights`. -/
-def robustStep (G : GFns α) (y ytemp wt de rw : List α) (s : α) (n : α) : List α :=
+/-- `np.max` / `np.min` of a non-empty list (0 for the empty list, which the kernels never form) -/
+def maxL : List α → α
+  | [] => nat 0
+  | x :: xs => xs.foldl (fun m v => if m < v then v else m) x
+def minL : List α → α
+  | [] => nat 0
+  | x :: xs => xs.foldl (fun m v => if v < m then v else m) x
+
+/-- one robust re-weighting step.  `r = y - y_temp`; returns the new `r_weights`.
+    The weights are kept when the MAD is at rounding-noise level relative to the spread of the valid data
+    (`mad <= madtol * (1 + max - min)`) and when fewer than two cells would keep a positive weight. -/
+def robustStep (G : GFns α) (y ytemp wt de rw w : List α) (s : α) (n : α) : List α :=
   let r := sub2 y ytemp
-  let rsel := ((r.zip wt).filter fun (_, w) => !(eqv w (nat 0))).map (·.1)
+  let rsel := ((r.zip wt).filter fun (_, wi) => !(eqv wi (nat 0))).map (·.1)
   let med := median rsel
   let mad := median (rsel.map fun x => absv (x - med))
-  if nat 0 < mad then
+  let yv := ((y.zip w).filter fun (_, wi) => !(eqv wi (nat 0))).map (·.1)
+  let madMin := G.madtol * (nat 1 + (maxL yv - minL yv))
+  if madMin < mad then
     let h := sumF (gammaOf wt de s)
     let scale := G.c1 * mad * G.sqrt (nat 1 - h / n)
-    r.map fun ri =>
+    let rnew := r.map fun ri =>
       let u := ri / scale
       let t := u / G.c2
       if nat 0 < ri then nat 1
       else if nat 1 < absv t then nat 0
       else (nat 1 - t * t) * (nat 1 - t * t)
+    if 1 < ((mul2 w rnew).filter fun x => decide (nat 0 < x)).length then rnew else rw
   else rw
 
 /-- iterations of the robust loop.  Returns (list of best-so-far after each iteration, r_weights);
@@ -235,7 +249,7 @@ def gcvIter (G : GFns α) (y w de llasPow : List α) (robust : Bool) (n : α) :
       match b'.ytemp with
       | none => none
       | some yt =>
-        let rw' := robustStep G y yt wt de rw b'.lam n
+        let rw' := robustStep G y yt wt de rw w b'.lam n
         gcvIter G y w de llasPow robust n k (it + 1) b' rw' (hist ++ [b'])
     else gcvIter G y w de llasPow robust n k (it + 1) b' rw (hist ++ [b'])
 
